@@ -295,6 +295,7 @@ pub(crate) fn sched_point(
 /// order of the logged events is exactly the order in which the operations took
 /// effect on the channels. When no log is active they are the plain blocking
 /// operations.
+#[cfg(feature = "par")]
 pub mod chan {
     use super::{sched_perturb, SchedEvent, SCHED};
 
